@@ -5,6 +5,7 @@ Property theorems (element-wise lemmas: Lemmas/Bmap.lean).  The `_current` theor
 -/
 import OsyrisModel
 import OsyrisProofs.Lemmas.Bmap
+import OsyrisProofs.Lemmas.Bcast
 
 namespace Osyris.C02
 open Osyris
@@ -335,5 +336,16 @@ def b20cm : ArrV := { shape := [1], dtype := .f4, data := [20], unit := ucm }
 example : ∃ x, ArrV.binaryOp Reference.tables .add a3m b20cm = .ok x ∧ x.phys = [16/5] := by
   refine ⟨_, rfl, ?_⟩
   decide +kernel
+
+/-- **C02 (broadcast reads are real reads)**: in an element-wise operation on operands whose shapes broadcast to `out`,
+    every element of the result is computed from an element that exists in each operand (the model's totalised access never
+    falls back to its default; proved in `Lemmas/Bcast.lean`: `bshape_compat`, `bidx_lt`, `unravel_lt`, `ravel_lt`) -/
+theorem C02_broadcast_reads_in_range (s t out : List Nat) (h : bshape s t = some out) (i : Nat) (hi : i < shapeSize out) :
+    bidx out s i < shapeSize s ∧ bidx out t i < shapeSize t :=
+  Bcast.bmap2_reads_in_range s t out h i hi
+
+/-- non-vacuity: a column against a row -/
+example : bidx [2, 3] [2, 1] 4 < shapeSize [2, 1] ∧ bidx [2, 3] [3] 4 < shapeSize [3] :=
+  C02_broadcast_reads_in_range [2, 1] [3] [2, 3] (by decide) 4 (by decide)
 
 end Osyris.C02
